@@ -371,7 +371,7 @@ fn check_order_abstraction(ctx: &Ctx) {
         "\"\u{e9}\"", "\"\u{e8}\"", "\"\u{fc}\"", "\"a\"", "\"b\"", "\"\"", "\"\u{65e5}\"", "\"\u{672c}\"", "\"\u{1f600}\"", "\"\u{1f601}\"", "\"ab\"", "\"\u{e9}\u{e8}\"", "[1]", "[2]", "[]", "{a: 1}", "{a: 2}", "{}", "1.5", "0", "(-0)",
         "null", "true", "(x => x)", "(x => x + 1)", "\"a\u{e9}\u{e8}b\"[1]", "\"a\u{e9}\u{e8}b\"[2]", "[...\"\u{e8}\u{e9}\"][0]", "split(\"\u{e9},\u{e8}\", \",\")[1]",
     ];
-    let contexts = ["[H1, H2]", "[H1 .== H2, H1, H2]", "{p: H1, q: H2}", "to_string(H1) + to_string(H2)", "[[H1], [H2, H1]]", "[typeof(H1), H2, H1]", "unique([H1, H2, H1])"];
+    let contexts = ["[H1, H2]", "[H1 .== H2, H1, H2]", "{p: H1, q: H2}", "to_string(H1) + to_string(H2)", "[[H1], [H2, H1]]", "[typeof(H1), H2, H1]", "unique([H1, H2, H1])", "sort([H1, H2])", "sort([[H1], [H2], [H1]])", "sort_by([H1, H2], x => x)", "sort_by([1, 2], i => [H2, H1][i - 1])", "[includes([H1], H2), H1 == H2, max(1, 2)]"];
     let mut jobs: Vec<(String, Vec<String>)> = vec![];
     for e1 in es {
         for e2 in es {
